@@ -27,7 +27,32 @@ use std::sync::{Arc, Mutex};
 
 // ------------------------------------------------------------------------------------------------ K-sel
 
+/// rank selection as the operators use it: the presence of an `optional` node is inherited from a parent picked by
+/// rank selection, so with exactly one absent parent at rank r the offspring is absent with probability selPmf(r)
+pub fn gen_sel_opt(rng: &mut Rng, thorough: bool) -> J {
+    let n = 3 + rng.below(8) as usize;
+    let num = match rng.below(5) { 0 => 0, 1 => 3, 2 => 8, _ => rng.below(16) };
+    let p = num as f64 / 16.0;
+    let draws: u64 = if thorough { 200_000 } else { 20_000 };
+    let none_rank = match rng.below(3) { 0 => 0, 1 => n - 1, _ => rng.below(n as u64) as usize };
+    let spec = spec::Spec(spec::Node::Optional { value_type: Box::new(spec::Node::Int { init: 0, scale: 1.0, min: None, max: None }), init_present: true });
+    let parents: Vec<value::Value> = (0..n).map(|i| value::Value(value::Node::Optional(if i == none_rank { None } else { Some(Box::new(value::Node::Int(i as i64))) }))).collect();
+    let refs: Vec<&value::Value> = parents.iter().collect();
+    let cparams = CrossoverParams { crossover_prob: 1.0, selection_pressure: p };
+    let crossover = Crossover::new();
+    let mut std_rng = StdRng::seed_from_u64(rng.next());
+    let mut path_ctx = PathContext::default();
+    for q in &parents { path_ctx.add_nodes_for(q); }
+    let mut none_count = 0u64;
+    for _ in 0..draws {
+        let out = crossover.crossover(&spec, &refs, &cparams, &mut path_ctx, &mut std_rng);
+        if matches!(out.0, value::Node::Optional(None)) { none_count += 1; }
+    }
+    json!({"mode": "selopt", "pNum": num, "pDen": 16, "n": n, "draws": draws, "noneRank": none_rank, "noneCount": none_count})
+}
+
 pub fn gen_sel(rng: &mut Rng, thorough: bool) -> J {
+    if rng.chance(1, 4) { return gen_sel_opt(rng, thorough); }
     let n = 1 + rng.below(10) as usize;
     let num = match rng.below(6) { 0 => 0, 1 => 16, 2 => 15, 3 => 1, _ => rng.below(17) };
     let p = num as f64 / 16.0;
@@ -235,6 +260,8 @@ pub fn battery() -> Vec<Problem> {
     for d in [2usize, 5, 10] { for s in [1.0f64, 1e-3, 1e4] {
         v.push(Problem { name: format!("sphere{d}@{s:e}"), spec: sphere_spec(d, s), budget: 2000, f: f_sphere, scale: s });
     } }
+    // the search is scale invariant: the same problem posed in units of 1e-17 and of 1e12
+    for s in [1e-17f64, 1e12] { v.push(Problem { name: format!("sphere2@{s:e}"), spec: sphere_spec(2, s), budget: 2000, f: f_sphere, scale: s }); }
     v.push(Problem { name: "bound".into(), spec: "type: real\ninit: 5.0\nscale: 1.0\nmin: 0.0\nmax: 10.0\n".into(), budget: 1000, f: f_bound, scale: 1.0 });
     v.push(Problem { name: "grid".into(), spec: "a:\n  type: int\n  init: 50\n  scale: 10\n  min: -100\n  max: 100\nb:\n  type: int\n  init: -50\n  scale: 10\n  min: -100\n  max: 100\n".into(), budget: 2000, f: f_grid, scale: 1.0 });
     v.push(Problem { name: "onemax".into(), spec: "type: array\nsize: 16\nvalueType:\n  type: bool\n  init: false\n".into(), budget: 2000, f: f_onemax, scale: 1.0 });
@@ -347,7 +374,10 @@ pub fn gen_twin(rng: &mut Rng, thorough: bool, exe: &str) -> J {
     let a = twin_trace(spec_idx, nc, sample_size, yields, budget, with_guess);
     let b = twin_trace(spec_idx, nc, sample_size, yields, budget, with_guess);
     // third run: a fresh process
-    let out = std::process::Command::new(exe)
+    let pinned = rng.chance(1, 2);
+    let mut cmd = std::process::Command::new(exe);
+    if pinned { cmd.env("CVH_PIN_ONE_CPU", "1"); }
+    let out = cmd
         .args(["twin-child", &spec_idx.to_string(), &nc.to_string(), &sample_size.to_string(), &yields.to_string(), &budget.to_string(), if with_guess { "1" } else { "0" }])
         .output();
     let c: J = match out { Ok(o) => serde_json::from_slice(&o.stdout).unwrap_or(json!({"childError": String::from_utf8_lossy(&o.stderr).to_string()})), Err(e) => json!({"childError": e.to_string()}) };
@@ -362,7 +392,7 @@ pub fn gen_twin(rng: &mut Rng, thorough: bool, exe: &str) -> J {
     let distinct_values = { let mut s: Vec<&str> = a["evals"].as_array().unwrap().iter().map(|e| e[2].as_str().unwrap()).collect(); s.sort(); s.dedup(); s.len() };
     json!({"mode": "twin", "specIdx": spec_idx, "nc": nc, "sampleSize": sample_size, "yields": yields, "budget": budget, "withGuess": with_guess,
            "nEvals": a["evals"].as_array().map(|x| x.len()), "distinctValues": distinct_values,
-           "sameInProcess": a == b, "sameCrossProcess": a == c, "sameGuessOrNot": a == d,
+           "sameInProcess": a == b, "sameCrossProcess": a == c, "crossProcessPinnedToOneCpu": pinned, "sameGuessOrNot": a == d,
            "diffGuessOrNot": first_diff(&a, &d),
            "diffInProcess": first_diff(&a, &b), "diffCrossProcess": first_diff(&a, &c),
            "ids": a["evals"].as_array().unwrap().iter().map(|e| e[1].clone()).collect::<Vec<_>>(),
